@@ -49,7 +49,7 @@ REQUESTS = [
     ('lazy_exc0', 'lazy', [('n', 4), ('fail_after', 0), ('how', 'exc')]),
     ('lazy_always', 'lazy', [('n', 4), ('fail_after', 1), ('how', 'always')]),
     ('pair', 'pair', [('n', 3)]), ('pair_ignored', 'pair', [('n', -1)]), ('pair_empty', 'pair', [('n', -2)]), ('pair_short', 'pair', [('n', -3)]),
-    ('pair_none', 'pair', [('n', -4)]),
+    ('pair_none', 'pair', [('n', -4)]), ('pair_scalar', 'pair', [('n', -5)]),
     ('fault_odd_ctl', 'fail_odd', [('which', 'ctl')]), ('fault_odd_badkey', 'fail_odd', [('which', 'badkey')]),
     ('fault_odd_decimal', 'fail_odd', [('which', 'decimal')]), ('fault_odd_custom', 'fail_odd', [('which', 'custom')]),
     ('fault_odd_detailstr', 'fail_odd', [('which', 'detailstr')]), ('fault_odd_nonecode', 'fail_odd', [('which', 'nonecode')]),
@@ -265,6 +265,13 @@ def run_case(R, case, w, rec, box, body_req, maxlen, cl, abort_after, validate, 
             env.pop('PATH_INFO', None)
         if case['lean'] == 'no_content_type':
             env.pop('CONTENT_TYPE', None)
+        # how a gateway splits the URL between SCRIPT_NAME and PATH_INFO when the application is mounted at the root or below it
+        if case['lean'] == 'script_slash' and env.get('PATH_INFO', '/') in ('/', ''):
+            env['SCRIPT_NAME'], env['PATH_INFO'] = '/', ''
+        if case['lean'] == 'script_prefix' and env.get('PATH_INFO', '/') in ('/', ''):
+            env['SCRIPT_NAME'], env['PATH_INFO'] = '/app', ''
+        if case['lean'] == 'empty_path' and env.get('PATH_INFO', '/') in ('/', ''):
+            env['SCRIPT_NAME'], env['PATH_INFO'] = '', ''
     r = drive.call_wsgi(w, env, inp, events=ev, abort_after=abort_after, validate=validate)
     box[0] = None
     blen = len(body_req['body'])
@@ -298,7 +305,7 @@ def run(spec, R):
 
     reqs = []
     for rname, meth, args in REQUESTS:
-        if kind == 'httprpc' and rname in ('gen', 'gen0', 'gen_late_exc', 'pair', 'pair_ignored', 'pair_empty', 'pair_short', 'pair_none'):
+        if kind == 'httprpc' and rname in ('gen', 'gen0', 'gen_late_exc', 'pair', 'pair_ignored', 'pair_empty', 'pair_short', 'pair_none', 'pair_scalar'):
             continue        # HttpRpc as *output* protocol only serialises primitives
         reqs.append((rname, M.encode_request(kind, meth, args)))
     if kind not in ('httprpc', 'httprpc-json'):
@@ -371,7 +378,7 @@ def run(spec, R):
                     r3, viol3 = run_case(R, case, w, rec, box, breq, maxlen, cl, k, False, full)
                     report(R, case, k, r3, viol3, breq)
                 if clname in ('equal', 'absent') and maxlen > 10000:
-                    for lean in ('minimal', 'no_content_type'):
+                    for lean in ('minimal', 'no_content_type', 'script_slash', 'script_prefix', 'empty_path'):
                         lcase = dict(case, lean=lean)
                         r4, viol4 = run_case(R, lcase, w, rec, box, breq, maxlen, cl, None, False, full)
                         report(R, lcase, None, r4, viol4, breq)
